@@ -14,9 +14,10 @@ class TypeEraseNext(Unit):
     maxruns = {"quick": 2500, "thorough": 30000}
     nrandom = {"quick": 300, "thorough": 3000}
 
-    QUICK = [("v", "stop"), ("d", "stop"), ("e", "stop"), ("vd", "stop"), ("ve", "stop"), ("vv", "stop"),
-             ("vvd", "nostop"), ("ve", "nostop"), ("-", "nostop")]
-    MORE = [("vvd", "stop"), ("vve", "stop"), ("-", "stop"), ("d", "nostop"), ("vvvd", "nostop")]
+    # (a script that is used up continues with d: "v" = "vd", "-" = "d")
+    QUICK = [("v", "stop"), ("d", "stop"), ("e", "stop"), ("ve", "stop"), ("vv", "stop"),
+             ("vv", "nostop"), ("ve", "nostop")]
+    MORE = [("vvv", "stop"), ("vve", "stop"), ("d", "nostop"), ("e", "nostop"), ("vvv", "nostop")]
 
     def programs(self, tier):
         return list(self.QUICK) if tier == "quick" else list(self.QUICK) + list(self.MORE)
